@@ -40,7 +40,7 @@ ASSUMPTIONS = [
     "unless errors_rel_to_model=False; hist_fit switches to the Gauss approximation when any error is given; bin_evaluation 'simpson'; profile -> asymmetric errors)",
     "histogram fits with model-relative sources appear only where both sides use the same model-relative source (wrapper <-> explicit); nothing is asserted "
     "about the size of such a source (open finding C01/hist-model-relative-source-refers-to-density-integral-not-N-times-integral)",
-    "YAML shorthand for non-xy `errors` keys is documented as TODO in the user guide: only float scalars / float lists are exercised there",
+    "YAML shorthand for non-xy `errors` keys is documented as TODO in the user guide: only float scalars / float lists / a single mapping are exercised there",
     "configurations are generated with a positive-definite total covariance (an absolute base source on y is part of every chi2 problem)",
 ]
 ANCHORS = [
@@ -1486,6 +1486,13 @@ def yaml_axis_errors(rng, kind, n, ref, axis):
         s = float(short)
         expl = [{"type": "simple", "error_value": s, "relative": False, "correlation_coefficient": 0.0}]
         return short, expl, [["add_error", dict(ax, err=s, relative=False, reference="data", corr=0.0, name=axis + "abs")]]
+    if kind == "single-mapping":
+        # one error source written as a mapping, not wrapped in a list: the same source as the one-element list
+        s = r6(sc_abs * rng.uniform(0.6, 1.5))
+        c = float(rng.choice([0.0, 0.0, 0.3]))
+        ent = {"type": "simple", "error_value": s, "relative": False, "correlation_coefficient": c}
+        short = {k: v for k, v in ent.items() if not (k == "relative" or (k == "correlation_coefficient" and c == 0.0 and rng.random() < 0.5))}
+        return short, [ent], [["add_error", dict(ax, err=s, relative=False, reference="data", corr=c, name=axis + "abs")]]
     if kind == "float-list":
         v = rl(sc_abs * rng.uniform(0.6, 1.5, size=n))
         expl = [{"type": "simple", "error_value": v, "relative": False, "correlation_coefficient": 0.0}]
@@ -1510,7 +1517,7 @@ def yaml_axis_errors(rng, kind, n, ref, axis):
     raise KeyError(kind)
 
 
-YAML_KINDS = ["percent-scalar", "float-scalar", "float-list", "mixed-list"]
+YAML_KINDS = ["percent-scalar", "float-scalar", "float-list", "mixed-list", "single-mapping"]
 
 
 def gen_yaml(rng, tier, variant, sub):
@@ -1587,7 +1594,7 @@ def gen_yaml(rng, tier, variant, sub):
                 e = rl(0.1 * float(np.abs(d).mean() + np.std(d) + 0.2) * rng.uniform(0.6, 1.5, size=n))
             else:
                 e = r6(0.1 * float(np.abs(d).mean() + np.std(d) + 0.2) * rng.uniform(0.6, 1.5))
-            short = {"type": "indexed", "data": spec["data"], "errors": e, "model_function": text}
+            short = {"type": "indexed", "data": spec["data"], "errors": {"type": "simple", "error_value": e} if variant == "single-mapping" else e, "model_function": text}
             expl = {"type": "indexed", "dataset": {"type": "indexed", "data": spec["data"], "errors": [{"type": "simple", "error_value": e, "relative": False, "correlation_coefficient": 0.0}]},
                     "parametric_model": {"type": "indexed", "model_function": {"type": "indexed", "python_code": text}}}
             ops = [["add_error", {"err": e, "relative": False, "reference": "data", "corr": 0.0, "name": "abs"}]]
@@ -1648,8 +1655,8 @@ def _strata():
     for v, subs in (("library", ["lib-unbinned", "lib-hist"] + ["lib:" + a for v in LIBRARY.values() for a in v[0]]), ("sympy", ["lib-xy", "vlib", "renamed", "density-unbinned", "density-hist"]), ("sympy-noname", ["vlib"]), ("source", ["lib-xy", "vlib", "renamed", "indexed"]),
                     ("yaml-source", ["vlib", "indexed", "density-hist", "density-unbinned"]), ("yaml-string", ["lib-xy", "vlib"])):
         S += [("model-form", v, s) for s in subs]
-    S += [("yaml", v, "xy") for v in ("percent-scalar", "float-scalar", "float-list", "mixed-list", "x-percent", "model-dict", "model-parameters", "constraint-dict")]
-    S += [("yaml", "float-scalar", "indexed"), ("yaml", "float-list", "indexed"), ("yaml", "toplevel", "hist"), ("yaml", "toplevel", "unbinned")]
+    S += [("yaml", v, "xy") for v in ("percent-scalar", "float-scalar", "float-list", "mixed-list", "single-mapping", "x-percent", "model-dict", "model-parameters", "constraint-dict")]
+    S += [("yaml", "float-scalar", "indexed"), ("yaml", "float-list", "indexed"), ("yaml", "single-mapping", "indexed"), ("yaml", "toplevel", "hist"), ("yaml", "toplevel", "unbinned")]
     return S
 
 
